@@ -355,7 +355,14 @@ def extreme_arg_events(rnd, eid0):
                  ("to_string", lambda p: p.to_string()), ("neg", lambda p: -p), ("add", lambda p: p + p), ("mul", lambda p: p * 2.0),
                  ("cmp", lambda p: p < p), ("sort", lambda p: np.sort(p)), ("min", lambda p: p.min()), ("copy", lambda p: p.copy()),
                  ("getitem", lambda p: p[1:]), ("isclose", lambda p: np.isclose(p, p)), ("float0", lambda p: float(p[0])),
-                 ("imag-real", lambda p: (p.imag, p.real))]
+                 ("imag-real", lambda p: (p.imag, p.real)),
+                 ("FractionalPhase", lambda p: pb.pulsar.FractionalPhase(p)),
+                 ("FractionalPhase-wrap1", lambda p: pb.pulsar.FractionalPhase(p, wrap_angle=1 * u.cycle)),
+                 ("FractionalPhase-wrap0", lambda p: pb.pulsar.FractionalPhase(p, wrap_angle=0 * u.cycle)),
+                 ("FractionalPhase-wrap-deg", lambda p: pb.pulsar.FractionalPhase(p, wrap_angle=90 * u.deg)),
+                 ("Phase-of-phase", lambda p: pb.Phase(p)), ("Phase-nocopy", lambda p: pb.Phase(p, copy=False)),
+                 ("Angle", lambda p: __import__("astropy.coordinates").coordinates.Angle(p)),
+                 ("Longitude", lambda p: __import__("astropy.coordinates").coordinates.Longitude(p.frac, wrap_angle=1 * u.cycle))]
         for cname, conv in convs:
             p = mk()
             P = Pool()
@@ -405,6 +412,55 @@ def extreme_arg_events(rnd, eid0):
                     events.append({"id": eid0 + len(events), "ev": "call", "op": "api_call", "argbuf": zb, "pre": pre,
                                    "post": P.hashes(), "mpre": mpre, "mpost": P.metas(), "raised": raised,
                                    "case": {"phase-conversion": "%s:%s:%s" % (pk, bname, ok), "imag": pk == "imag", "rep": rep}})
+    # results that must be NEW: after the call the result is overwritten in place (an operation naming only the
+    # result as its target); the inputs must still be bit-identical
+    def wipe(r):
+        for x in (r if isinstance(r, (tuple, list)) else [r]):
+            d = getattr(x, "data", x) if not isinstance(x, np.ndarray) else x
+            if isinstance(d, np.ndarray) and d.flags.writeable and d.size:
+                if isinstance(x, np.ndarray):
+                    x[...] = 0
+                else:
+                    x *= 0
+    for kind in ("dp", "bb", "in", "rd"):
+        for nch1 in (False, True):
+            z0 = make_root({"kind": kind, "contig": True}, rnd)
+            z = z0[:, :1] if nch1 else z0
+            z = type(z).like(z, np.array(np.asarray(z.data)))            # own contiguous buffer
+            fresh = [("array", lambda z=z: np.array(z)), ("array-own-dtype", lambda z=z: np.array(z, dtype=z.dtype)),
+                     ("array-own-dtype-copy", lambda z=z: np.array(z, dtype=z.dtype, copy=True)),
+                     ("array-copy", lambda z=z: np.array(z, copy=True)), ("np.copy", lambda z=z: np.copy(z)),
+                     ("mul", lambda z=z: z * 1), ("add0", lambda z=z: z + 0), ("positive", lambda z=z: np.positive(z)),
+                     ("concat1", lambda z=z: pb.concatenate([z])), ("concat2", lambda z=z: pb.concatenate([z[:10], z[10:]])),
+                     ("time_shift", lambda z=z: pb.time_shift(z, 1.5)), ("time_shift-int", lambda z=z: pb.time_shift(z, 2)),
+                     ("snippet", lambda z=z: pb.snippet(z, 2.5, 8))]
+            if kind != "rd" or True:
+                for dmv in (0.0, 1e-9, 0.02, -0.02):
+                    fresh.append(("incoh_dd dm=%g" % dmv, lambda z=z, dmv=dmv: pb.incoherent_dedispersion(z, pb.DM(dmv))))
+                    fresh.append(("incoh_dd dm=%g ref" % dmv, lambda z=z, dmv=dmv: pb.incoherent_dedispersion(z, pb.DM(dmv), ref_freq=z.center_freq)))
+            if kind in ("dp", "bb"):
+                for dmv in (0.0, 1e-9, 0.02):
+                    fresh.append(("coh_dd dm=%g" % dmv, lambda z=z, dmv=dmv: pb.coherent_dedispersion(z, pb.DM(dmv))))
+                fresh += [("to_intensity", lambda z=z: z.to_intensity()), ("freq_shift", lambda z=z: pb.freq_shift(z, 0.1 * u.MHz)),
+                          ("stft", lambda z=z: pb.contrib.stft(z, nperseg=4)),
+                          ("istft", lambda z=z: pb.contrib.istft(pb.contrib.stft(z, nperseg=4), nperseg=4))]
+            if kind == "dp":
+                # (a conversion to the basis the signal is already in returns a view: Alias!OpTable "view")
+                fresh += [("to_stokes", lambda z=z: z.to_stokes()),
+                          ("to-other-basis", lambda z=z: z.to_circular() if z.pol_type == "linear" else z.to_linear())]
+            for name, call in fresh:
+                P = Pool()
+                zb = P.buf_id(z.data)
+                P.sigs.append((z, zb))
+                pre, mpre = P.hashes(), P.metas()
+                try:
+                    wipe(call())
+                    raised = ""
+                except Exception as e:  # noqa
+                    raised = repr(e)[:200]
+                events.append({"id": eid0 + len(events), "ev": "call", "op": "api_call", "argbuf": zb, "pre": pre,
+                               "post": P.hashes(), "mpre": mpre, "mpost": P.metas(), "raised": raised,
+                               "case": {"extreme": "result-overwritten:" + name, "rep": 0, "args": [kind, str(nch1)]}})
     # concatenate of DIFFERENT signals (not pieces of one): their metadata dicts differ in keys and values
     for kind in ("dp", "bb", "in", "sg"):
         z0 = make_root({"kind": kind, "contig": True}, rnd)
